@@ -848,6 +848,7 @@ def install(eng):
     M["std::mem::replace"] = m_mem_replace
     M["std::mem::swap"] = m_mem_swap
     M["<Vec as Deref>::deref"] = m_deref_vec
+    M["<Vec as DerefMut>::deref_mut"] = m_deref_vec
     M["Vec::new"] = m_vec_new
     M["Vec::len"] = m_vec_len
     M["Vec::is_empty"] = m_vec_is_empty
